@@ -133,11 +133,11 @@ func (su *optSetup) modelBits(on map[string]bool) uint16 {
 func c18OptMachine(c *Ctx, su *optSetup) *Machine[*optInst] {
 	type op struct {
 		method string
-		mode   int // 0 true, 1 false, 2 toggle
+		mode   int // 0 true, 1 false, 2 toggle, 3 (true, false), 4 (false, true): the first Boolean speaks (round 14)
 	}
 	var ops []op
 	for _, m := range su.methods {
-		for mode := 0; mode < 3; mode++ {
+		for mode := 0; mode < 5; mode++ {
 			ops = append(ops, op{m, mode})
 		}
 	}
@@ -145,7 +145,7 @@ func c18OptMachine(c *Ctx, su *optSetup) *Machine[*optInst] {
 	if su.mutex {
 		name += " mutex"
 	}
-	opName := func(o op) string { return o.method + []string{"(true)", "(false)", "()"}[o.mode] }
+	opName := func(o op) string { return o.method + []string{"(true)", "(false)", "()", "(true, false)", "(false, true)"}[o.mode] }
 	direct := func(on map[string]bool) any { // differential: the same option set reached directly
 		x := su.fresh()
 		names := make([]string, 0, len(on))
@@ -180,15 +180,19 @@ func c18OptMachine(c *Ctx, su *optSetup) *Machine[*optInst] {
 				callOpt(in.x, o.method, true)
 			case 1:
 				callOpt(in.x, o.method, false)
+			case 3:
+				callOpt(in.x, o.method, true, false)
+			case 4:
+				callOpt(in.x, o.method, false, true)
 			default:
 				callOpt(in.x, o.method)
 			}
 			opt := su.canon[o.method]
 			if !in.on[su.ronly] || opt == su.ronly {
 				switch o.mode {
-				case 0:
+				case 0, 3:
 					in.on[opt] = true
-				case 1:
+				case 1, 4:
 					in.on[opt] = false
 				default:
 					in.on[opt] = !in.on[opt]
